@@ -50,7 +50,9 @@ var (
 
 type reader struct {
 	r            flate.Reader
-	decompressor io.ReadCloser
+	decompressor io.ReadCloser // the inflater of the current stream: plain or withDict
+	plain        io.ReadCloser // for streams without a preset dictionary
+	withDict     io.ReadCloser // for streams that name a preset dictionary
 	digest       hash.Hash32
 	err          error
 	scratch      [4]byte
@@ -132,7 +134,7 @@ func (z *reader) Close() error {
 }
 
 func (z *reader) Reset(r io.Reader, dict []byte) error {
-	*z = reader{decompressor: z.decompressor}
+	*z = reader{plain: z.plain, withDict: z.withDict}
 	if fr, ok := r.(*bufio.Reader); ok {
 		z.r = fr
 	} else {
@@ -168,14 +170,23 @@ func (z *reader) Reset(r io.Reader, dict []byte) error {
 		}
 	}
 
-	if z.decompressor == nil {
-		if haveDict {
-			z.decompressor = flate.NewReaderDict(z.r, dict)
+	// Which inflater serves the stream depends on the stream, exactly as in
+	// NewReaderDict, not on what an earlier stream needed: only the one made
+	// by flate.NewReaderDict honours a dictionary.
+	if haveDict {
+		if z.withDict == nil {
+			z.withDict = flate.NewReaderDict(z.r, dict)
 		} else {
-			z.decompressor = flate.NewReader(z.r)
+			z.withDict.(flate.Resetter).Reset(z.r, dict)
 		}
+		z.decompressor = z.withDict
 	} else {
-		z.decompressor.(flate.Resetter).Reset(z.r, dict)
+		if z.plain == nil {
+			z.plain = flate.NewReader(z.r)
+		} else {
+			z.plain.(flate.Resetter).Reset(z.r, nil)
+		}
+		z.decompressor = z.plain
 	}
 	z.digest = adler32.New()
 	return nil
